@@ -1161,6 +1161,9 @@ class ClientObservation:
     class _Iterator:
         def __init__(self):
             self._future = asyncio.get_running_loop().create_future()
+            # Terminal error that arrived while the latest item was not
+            # consumed yet; it is raised after that item.
+            self._pending_error = None
 
         def push(self, item):
             if self._future.done():
@@ -1170,6 +1173,12 @@ class ClientObservation:
 
         def push_err(self, e):
             if self._future.done():
+                if not self._future.cancelled() and self._future.exception() is None:
+                    # Lossiness only applies to items superseded by fresher
+                    # ones: the error ends the observation, it does not
+                    # replace the last (typically final) response.
+                    self._pending_error = e
+                    return
                 self._future = asyncio.get_running_loop().create_future()
             self._future.set_exception(e)
 
@@ -1182,6 +1191,9 @@ class ClientObservation:
                 # a quick second future comes in in a push?
                 if f is self._future:
                     self._future = asyncio.get_running_loop().create_future()
+                    if self._pending_error is not None:
+                        self._future.set_exception(self._pending_error)
+                        self._pending_error = None
                 return result
             except (error.NotObservable, error.ObservationCancelled):
                 # only exit cleanly when the server -- right away or later --
